@@ -577,6 +577,8 @@ class Run:
             return cache[name]
         w = self.world
         typ = w.types[name]
+        if mode in ("snapshot", "snapshot-late") and typ == E and name[0] != "n" and self.snap[name]["table"] is None:
+            raise TwinUnavailable(name)      # degraded mode: no creation-time structure to build a twin from
         if mode in ("snapshot", "snapshot-late") and typ == E and self.snap[name]["table"] is not None:
             obj = S.build_table(*self.snap[name]["table"])
         elif name[0] == "n":
@@ -798,11 +800,16 @@ class Run:
         for name, snap in self.snap.items():
             obj = w.objs[name]
             typ = snap["type"]
-            if typ == E and snap["table"] is not None:
+            if typ == E and snap["table"] is None:
+                continue          # degraded mode (walker unavailable): no structural twin can be built
+            if typ == E:
                 twin = S.build_table(*snap["table"])
             else:
                 try:
                     twin = self.replica(name, {}, mode="snapshot-late")
+                except TwinUnavailable:
+                    self.stats["walker_unavailable"] = self.stats.get("walker_unavailable", 0) + 1
+                    continue
                 except ReplicaDiverged:
                     # the cheap (late) twin cannot be built, e.g. the numeric route overflows where the early
                     # object's symbolic route did not: build the twin with the declared configuration
@@ -946,6 +953,9 @@ class Run:
         prop = "C09" if mode == "recipe" else "C10"
         try:
             ref_out, ref_obj = apply_op(step, lambda n: self.replica(n, cache, mode), w.fresh_point)
+        except TwinUnavailable:
+            self.stats["walker_unavailable"] = self.stats.get("walker_unavailable", 0) + 1
+            return None
         except ReplicaDiverged as e:
             return self._viol(prop, "replica-construction-diverged", step, str(e))
         if ref_obj is not None:
@@ -975,6 +985,10 @@ def _evaluates_at_point(step):
 
 def _point_token(step):
     return step["p"] if "p" in step else ("num", step.get("num"))
+
+
+class TwinUnavailable(Exception):
+    """Degraded mode (structural walker unavailable): a twin from the creation-time snapshot cannot be built."""
 
 
 class ReplicaDiverged(Exception):
